@@ -10,6 +10,9 @@
 //     3  ConcurrentSubjectRouter: 5 threads mixing notify / subscribe / unsubscribe / shrink /
 //        exists / depth (callbacks only touch an atomic)
 //     4  tulz::Thread: start with callables and Runnables, poll isFinished(), join
+//     5  tulz::Thread as a hand-over (C20): the callable / Runnable writes plain (non-atomic) data, the owner polls
+//        isFinished() and, once it is true, reads the data without joining first: "isFinished() becomes true only
+//        after the callable has returned" must hold as an ordering of memory accesses, not only of wall-clock time
 #include <tulz/threading/rwp/Resource.h>
 #include <tulz/threading/rwp/ReadLock.h>
 #include <tulz/threading/rwp/WriteLock.h>
@@ -130,6 +133,34 @@ static void threadStress(long iters, uint64_t seed) {
     printf("thread: sink=%ld\n", sink);
 }
 
+struct Payload { long a = 0, b = 0; char text[48] = {0}; };
+struct FillJob : tulz::Runnable {
+    Payload *p; long v;
+    FillJob(Payload *p, long v) : p(p), v(v) {}
+    void run() override { p->a = v; p->b = -v; snprintf(p->text, sizeof p->text, "job %ld", v); }
+};
+
+static void handoverStress(long iters, uint64_t seed) {
+    long sink = 0, bad = 0;
+    for (long i = 0; i < iters; ++i) {
+        Payload pl;
+        tulz::Thread t;
+        long v = (long) (seed * 1000 + i + 1);
+        switch (i % 3) {
+        case 0: t.start([](Payload *p, long &x) { p->a = x; p->b = -x; snprintf(p->text, sizeof p->text, "fn %ld", x); }, &pl, v); break;
+        case 1: { long big[6] = {v, 1, 2, 3, 4, 5}; t.start([big](Payload *p) { p->a = big[0]; p->b = -big[0]; p->text[0] = 'c'; }, &pl); break; }
+        default: t.start(new FillJob(&pl, v)); break;
+        }
+        while (!t.isFinished()) std::this_thread::yield();
+        // completion was reported: everything the callable wrote is visible
+        if (pl.a != v || pl.b != -v || pl.text[0] == 0) ++bad;
+        sink += pl.a + pl.b;
+        t.join();
+    }
+    printf("handover: sink=%ld bad=%ld\n", sink, bad);
+    if (bad) exit(3);
+}
+
 int main(int argc, char **argv) {
     int prog = argc > 1 ? atoi(argv[1]) : 0;
     long iters = argc > 2 ? atol(argv[2]) : 1000;
@@ -139,7 +170,8 @@ int main(int argc, char **argv) {
     case 2: poolStress(iters, seed); break;
     case 3: routerStress(iters, seed); break;
     case 4: threadStress(iters, seed); break;
-    default: fprintf(stderr, "usage: race <1-4> <iterations> <seed>\n"); return 2;
+    case 5: handoverStress(iters, seed); break;
+    default: fprintf(stderr, "usage: race <1-5> <iterations> <seed>\n"); return 2;
     }
     return 0;
 }
